@@ -2,6 +2,7 @@ package checks
 
 import (
 	"fmt"
+	"math"
 	"testing"
 
 	"github.com/sahandsafizadeh/qeep/tensor"
@@ -18,6 +19,37 @@ import (
 // Eye size in node.I; tensorof/at take their data from leaf 0).
 type C06Case struct {
 	P prog.Program `json:"p"`
+	// Series: shapes the first operand object is reshaped to afterwards, one after the other
+	// (9 or more pairwise different ones, then earlier ones again); every result has the
+	// requested shape and the operand's row-major element sequence
+	Series [][]int `json:"series,omitempty"`
+}
+
+// drawShapeSeries draws 9..14 pairwise different shapes with n elements (factorizations with
+// size-1 dimensions inserted) followed by repeats of earlier ones.
+func drawShapeSeries(t *rapid.T, n int) [][]int {
+	seen := map[string]bool{}
+	var out [][]int
+	for tries := 0; len(out) < 14 && tries < 200; tries++ {
+		f := prog.DrawFactorization(t, n, 4)
+		for len(f) < 6 && rapid.IntRange(0, 2).Draw(t, "pad1") == 0 {
+			k := rapid.IntRange(0, len(f)).Draw(t, "padat")
+			f = append(f[:k], append([]int{1}, f[k:]...)...)
+		}
+		if key := fmt.Sprint(f); !seen[key] {
+			seen[key] = true
+			out = append(out, f)
+		}
+	}
+	if len(out) < 9 {
+		return nil
+	}
+	out = out[:rapid.IntRange(9, len(out)).Draw(t, "nshapes")]
+	n0 := len(out)
+	for i := n0 - 2; i >= 0; i-- {
+		out = append(out, out[i])
+	}
+	return out
 }
 
 func init() { register("C06/structure", checkC06) }
@@ -46,7 +78,27 @@ func genC06(t *rapid.T) C06Case {
 	for i := range p.Leaves {
 		p.Leaves[i].Tracked = rapid.IntRange(0, 3).Draw(t, "tracked") == 0 // elements do not depend on tracking
 	}
-	return C06Case{P: p}
+	if rapid.IntRange(0, 9).Draw(t, "nearconstant") == 0 {
+		// all elements equal except for NaNs in drawn positions; or zeros of both signs only
+		for i := range p.Leaves {
+			v := p.Leaves[i].Vals
+			k := rapid.SampledFrom([]float64{7, 2.5, 0, 1, math.Inf(1)}).Draw(t, "constant")
+			zeros := rapid.IntRange(0, 3).Draw(t, "signedzeros") == 0
+			for j := range v {
+				v[j] = k
+				if zeros {
+					v[j] = math.Copysign(0, float64(1-2*rapid.IntRange(0, 1).Draw(t, "zsign")))
+				} else if rapid.IntRange(0, 3).Draw(t, "nanhere") == 0 {
+					v[j] = math.NaN()
+				}
+			}
+		}
+	}
+	c := C06Case{P: p}
+	if n := ref.Prod(p.Leaves[0].Shape); n <= 64 && rapid.IntRange(0, 11).Draw(t, "shapeseries") == 0 {
+		c.Series = drawShapeSeries(t, n)
+	}
+	return c
 }
 
 func finiteOr(v, alt float64) float64 {
@@ -170,6 +222,22 @@ func checkC06(c C06Case) *Failure {
 				return f
 			}
 		}
+	}
+	if len(c.Series) > 0 && len(c.Series) <= 40 {
+		l0 := c.P.Leaves[0]
+		for k, sh := range c.Series {
+			if ref.Prod(sh) != len(l0.Vals) || !ref.ValidDims(sh) || len(sh) > 8 {
+				return nil
+			}
+			r, err := leaves[0].Reshape(ref.Cp(sh))
+			if err != nil {
+				return failf("reshape number %d of one tensor object (%v -> %v) failed: %v", k+1, l0.Shape, sh, err)
+			}
+			if f := compareTensor(fmt.Sprintf("reshape number %d of one tensor object (%v -> %v)", k+1, l0.Shape, sh), r, ref.FromVals(sh, l0.Vals), cmpBits, nil); f != nil {
+				return f
+			}
+		}
+		evid.Class("C06.nine_or_more_shapes_of_one_tensor")
 	}
 	if n.Op == "slice" {
 		// one index slice object serves two calls on operands of different extent
